@@ -39,9 +39,14 @@ func IterProducers() (int, string) {
 // yields the processor first (producers exit within microseconds once the
 // consumer is done); the wall-clock limit is only a backstop.  It returns the
 // stacks of the producers that are still alive, or "".
-func WaitIterProducers(limit time.Duration) string {
+func WaitIterProducers(limit time.Duration) string { return WaitIterProducersAbove(0, limit) }
+
+// WaitIterProducersAbove waits until at most base producer goroutines are
+// left (base = the number that was alive before the iterator under test was
+// created, e.g. the producer of an enclosing iterator loop).
+func WaitIterProducersAbove(base int, limit time.Duration) string {
 	for i := 0; i < 200; i++ {
-		if n, _ := IterProducers(); n == 0 {
+		if n, _ := IterProducers(); n <= base {
 			return ""
 		}
 		runtime.Gosched()
@@ -49,7 +54,7 @@ func WaitIterProducers(limit time.Duration) string {
 	deadline := time.Now().Add(limit)
 	for {
 		n, st := IterProducers()
-		if n == 0 {
+		if n <= base {
 			return ""
 		}
 		if time.Now().After(deadline) {
